@@ -29,6 +29,8 @@ def runFormulaCase (line : String) : String :=
     showEntsRes (parseFormula drvCC T s) ++ "\t" ++ showFVerdict (Spec.specFormula drvCC T s)
   | ["parsewith", syms, s] =>
     -- a caller-supplied table: the listed symbols of the compiled one
+    -- (`…!n`: the same table with the `neutrons` fields rewritten — nothing the parser may look at)
+    let syms := if syms.endsWith "!n" then (syms.dropRight 2) else syms
     let keep : List Sym := if syms == "-" then [] else (syms.splitOn ",").map (fun w => w.toList.map Char.toNat)
     let T' := T.filter (fun e => keep.contains e.sym)
     let s := parseCps s
